@@ -157,6 +157,17 @@ def run(tier, v):
     trace = os.path.join(wd, "trace.ndjson")
     vlib.write_ndjson(trace, [{"id": i, "recs": s["recs"], "tail": s["tail"], "segs": s["segs"], "reader": s["reader"], "out": outs[i]} for i, s in enumerate(scen)])
     r2 = vlib.tlc("TV_C08", pid=PID, workers=8, env={"TRACE": trace}, timeout=3000, heap="10g")
+
+    if tier == "thorough":
+        def mut(rows):
+            k = next(i for i, r_ in enumerate(rows) if len(r_["out"]) > 1 and r_["out"][0] == 0 and any(x > 0 for x in r_["out"]))
+            r_ = dict(rows[k])
+            o_ = list(r_["out"])
+            j = next(i for i, x in enumerate(o_) if x > 0)
+            o_[0], o_[j] = o_[j], 0
+            r_["out"] = o_
+            return rows[:40] + [r_], "one report is moved from the completing segment to the first segment"
+        v.binding.append(vlib.binding_demo("TV_C08", trace, mut, PID, workers=4, timeout=900, heap="4g"))
     for b in r2.lines.get("BAD", []):
         s = scen[b["id"]]
         v.violation({"api": "TlsClientHelloReader::add_bytes" if s["reader"] else "packet-level analyzer", "records": s["recs"], "tail": s["tail"], "segments": s["segs"],
